@@ -417,9 +417,13 @@ func cmdCheck(args []string) int {
 		"wall_s":      round3(time.Since(t0).Seconds()),
 		"violations":  len(violLines),
 	}
-	os.MkdirAll(filepath.Join(*verif, "evidence"), 0o755)
+	evDir := filepath.Join(*verif, "evidence")
+	if d := os.Getenv("DVC_EVIDENCE_DIR"); d != "" {
+		evDir = d // used by the seed-trial scripts so that trial runs never overwrite the committed evidence
+	}
+	os.MkdirAll(evDir, 0o755)
 	b, _ := json.MarshalIndent(ev, "", " ")
-	os.WriteFile(filepath.Join(*verif, "evidence", prop+".json"), b, 0o644)
+	os.WriteFile(filepath.Join(evDir, prop+".json"), b, 0o644)
 
 	fmt.Printf("%s: %d obligations, %d discharged, %d known findings, %d violations, %d functions, %.1fs\n", prop, nObl, nProved, len(knownLines), len(violLines), len(funcsUnder), time.Since(t0).Seconds())
 	if *verbose {
